@@ -24,7 +24,11 @@ META = {
     "note": "Admissibility of the forces that the *iterative solvers* return (PGS/CG/Newton after mj_forward) is covered by the "
             "proved law of mj_constraintUpdate_impl for the primal solvers (their efc_force is the output of that function) and by "
             "projectCone + the oracle for PGS; the PGS block update (QCQP) itself is sampled, not modelled. mj_contactForce is "
-            "checked by the oracle against efc_force (elliptic: copy; pyramidal: decode; minus this tree's contact adhesion).",
+            "checked by the oracle against efc_force (elliptic: copy; pyramidal: decode; minus this tree's contact adhesion). "
+            "solveQCQP / mju_QCQP (friction update of PGS and of the noslip pass) has no Lean model: ellipsoid membership of its "
+            "result is an oracle on the real static function; it reports the genuine finding `c11:qcqp-outside-ellipsoid` (early exit "
+            "of mju_QCQP with la == 0 reported as 'inactive', reachable with noslip_iterations > 0, elliptic cone, condim 6) through a "
+            "deterministic witness on every seed.",
 }
 
 THEOREMS = [
